@@ -251,7 +251,8 @@ func mapDynamoToTypesSliceItem(input []dynamodbtypes.AttributeValue) []*types.It
 func mapDynamoToTypesItem(item dynamodbtypes.AttributeValue) *types.Item {
 	itemB, ok := item.(*dynamodbtypes.AttributeValueMemberB)
 	if ok {
-		return &types.Item{B: copyBytes(itemB.Value)}
+		// a binary member is a binary value even when it is empty
+		return &types.Item{B: append([]byte{}, itemB.Value...)}
 	}
 
 	itemBOOL, ok := item.(*dynamodbtypes.AttributeValueMemberBOOL)
@@ -540,7 +541,7 @@ func mapTypesToDynamoLocalSecondaryIndexes(input []types.LocalSecondaryIndexDesc
 }
 
 func mapTypesToDynamoItem(item *types.Item) dynamodbtypes.AttributeValue {
-	if len(item.B) != 0 {
+	if item.B != nil {
 		return &dynamodbtypes.AttributeValueMemberB{
 			Value: copyBytes(item.B),
 		}
